@@ -734,6 +734,30 @@ package engine
 //@   modifies *
 //@   ensures [C11.handlerwaits] calls(chan.recv) == 1 && arg(chan.recv, 1, ch) == old(ctx.done) && calls(BaseServer.ApplyMiddlewares) == 1 && before(BaseServer.ApplyMiddlewares, 1, chan.recv, 1)
 
+// attaching to an HTTP server: the engine handler is registered under the computed engine path, and the HTTP server's close
+// closes the engine server (which closes every session); both hooks are registered once
+//@ func (*server).Attach(server, opts)
+//@   props C12, C05
+//@   requires s != nil && s.BaseServer != nil && server != nil && server.EventEmitter != nil && server.ServeMux != nil
+//@   modifies *
+// (registering the same path twice, or an empty one, is the documented panic of the mux: an application error, not client input)
+//@   callsite (*types.ServeMux).HandleFunc#1
+//@     assume $pattern != "" && !maphas(server.ServeMux.m, $pattern)
+//@   ensures [C05.attach.path]  calls((*types.ServeMux).HandleFunc) == 1 && arg((*types.ServeMux).HandleFunc, 1, pattern) == ret(BaseServer.ComputePath, 1) && calls(BaseServer.ComputePath) == 1
+//@   ensures [C12.attach.close] ncalls(types.EventEmitter.Once, evt == "close") == 1 && ncalls(types.EventEmitter.Once, evt == "listening") == 1
+//@ func (*server).Attach$1(arg0)
+//@   props C12
+//@   requires s != nil && s.BaseServer != nil
+//@   modifies *
+//@   ensures [C12.attach.closes] calls(BaseServer.Close) == 1 && nevents() == 1
+// middlewares are kept in registration order (appended at the end)
+//@ func (*baseServer).Use(fn)
+//@   props C17
+//@   requires bs != nil
+//@   modifies bs.middlewares, Mem(bs.middlewares)
+//@   opt splitappend
+//@   ensures [C17.use.append] len(bs.middlewares) == len(old(bs.middlewares)) + 1 && forall k int :: 0 <= k && k < len(old(bs.middlewares)) ==> bs.middlewares[k] == old(bs.middlewares[k])
+
 // what the middleware chain hands on: a middleware failure is a BAD_REQUEST rejection, otherwise the verdict of Verify (for a
 // plain request with upgrade == false, for a WebSocket upgrade with upgrade == true) decides - nothing is admitted unverified
 //@ func (*server).HandleRequest$2(err)
